@@ -188,7 +188,7 @@ def build_traces(path, tier, seed):
             x = x * float(2.0 ** rng.choice([-560, -530, 505, 520]))
         o = eqsig.AccSignal(x, dt)
         # transform length: default, extra powers of two, explicit even / odd n (the dominant period is read off THAT grid)
-        nsel = int(rng.integers(5))
+        nsel = i % 5 if i < 10 else int(rng.integers(5))          # every way of fixing the transform length at least twice
         if nsel == 1:
             o.gen_fa_spectrum(p2_plus=gen.intlike(rng, int(rng.integers(1, 3))))
         elif nsel == 2:
